@@ -1,15 +1,14 @@
 (** RoundTripRefValid.v — property C04: clause V of [LibcRoundTripSpec] PROVED for the
     reference strtod: whatever [strtod_ref] returns is a well-formed double.
 
-    This is the one place of the C04 development that uses Flocq (4.1): its theorems
-    [binary_normalize_equiv] / [valid_binary_B2SF] (SpecFloat's integer -> double rounding
-    returns well-formed values) and [Bdiv_correct_aux] (so does the division, for arbitrary —
+    Uses Flocq (4.1): [RoundTripFlocq.normalize_equiv] / [valid_binary_B2SF] (SpecFloat's
+    integer -> double rounding returns well-formed values) and [Bdiv_correct_aux] (so does the division, for arbitrary —
     also unnormalised — mantissas, which is how [LibcNum.div_to_dbl] uses it).  Flocq is built
     on Coq's real numbers, so [Print Assumptions] lists the standard axioms of the Reals library
     for this file's theorems (and only for them). *)
 From Coq Require Import ZArith List Bool Floats.SpecFloat.
-From Flocq Require Import IEEE754.BinarySingleNaN IEEE754.PrimFloat.
-From CJ Require Import Base Dbl LibcNum ParseComplete RoundTripNum.
+From Flocq Require Import IEEE754.BinarySingleNaN.
+From CJ Require Import Base Dbl LibcNum ParseComplete RoundTripNum RoundTripFlocq.
 Local Open Scope Z_scope.
 
 Lemma SFopp_valid d : valid_binary Dbl.prec Dbl.emax d = true -> valid_binary Dbl.prec Dbl.emax (SFopp d) = true.
@@ -18,8 +17,8 @@ Proof. destruct d; intro H; exact H. Qed.
 Lemma normalize_valid z e : valid_binary Dbl.prec Dbl.emax (SpecFloat.binary_normalize Dbl.prec Dbl.emax z e false) = true.
 Proof.
   change (SpecFloat.binary_normalize Dbl.prec Dbl.emax z e false)
-    with (SpecFloat.binary_normalize FloatOps.prec FloatOps.emax z e false).
-  rewrite binary_normalize_equiv. apply valid_binary_B2SF.
+    with (SpecFloat.binary_normalize P E z e false).
+  rewrite normalize_equiv. apply valid_binary_B2SF.
 Qed.
 
 Lemma div_valid neg m d : valid_binary Dbl.prec Dbl.emax (div_to_dbl neg m d) = true.
@@ -28,13 +27,11 @@ Proof.
   assert (H : valid_binary Dbl.prec Dbl.emax
                 (SFdiv Dbl.prec Dbl.emax (S754_finite false (Z.to_pos m) 0) (S754_finite false (Z.to_pos d) 0)) = true).
   { cbn [SFdiv].
-    pose proof (Bdiv_correct_aux 53 1024 Hprec Hmax mode_NE false (Z.to_pos m) 0 false (Z.to_pos d) 0) as B.
+    pose proof (Bdiv_correct_aux 53 1024 Hp53 Hm1024 mode_NE false (Z.to_pos m) 0 false (Z.to_pos d) 0) as B.
     cbv zeta in B.
     change Dbl.prec with 53. change Dbl.emax with 1024.
     destruct (SFdiv_core_binary 53 1024 (Z.pos (Z.to_pos m)) 0 (Z.pos (Z.to_pos d)) 0) as [[mz ez] lz].
-    change (SpecFloat.binary_round_aux 53 1024 (xorb false false) mz ez lz)
-      with (SpecFloat.binary_round_aux FloatOps.prec FloatOps.emax (xorb false false) mz ez lz).
-    rewrite binary_round_aux_equiv. exact (proj1 B). }
+    rewrite round_aux_equiv. exact (proj1 B). }
   destruct neg; [apply SFopp_valid, H|exact H].
 Qed.
 
